@@ -27,6 +27,25 @@ def lattice4(tier):
     return [(s, e, sz, al) for (s, e) in iv for sz in S for al in A]
 
 
+def lattice_huge(tier):
+    # buffers around 4 GiB: sizes, end addresses and totals that do not fit 32 bits (n <= 3 over a 2-step lattice)
+    T, A = 2, (16, 64)
+    S = (48, (1 << 32) - 16, (1 << 32) + 48) if tier == "quick" else (48, (1 << 31) + 16, (1 << 32) - 16, (1 << 32) + 48, (1 << 33))
+    iv = [(s, e) for s in range(T) for e in range(s, T)]
+    return [(s, e, sz, al) for (s, e) in iv for sz in S for al in A]
+
+
+def _shard_huge_g(args):
+    """guarded: an allocator that does not return on such a set must become a finding, not a hung check"""
+    from .. import isolate
+
+    res, _ = isolate.run_forked(_shard, (args,), timeout=60, capture=False)
+    if res[0] == "ok":
+        return res[1]
+    first, items, n, tier = args
+    return dict(sets=0, sets_with_live_overlap=0), [((first,), "any", {}, ["allocator-did-not-return:%s" % res[0]], dict(error="shard with first range %s, n=%d did not finish: %s" % (first, n, res[:2])))], 1
+
+
 _mods = None
 
 
@@ -224,6 +243,14 @@ def run(ctx):
     rnd = random.Random(ctx.seed)
     rnd.shuffle(shards)
     total_bad = 0
+    items_h = lattice_huge(ctx.tier)
+    hshards = [(first, items_h, n, "quick") for n in (1, 2, 3) for first in items_h]
+    for stats, bad, nbad in pmap(_shard_huge_g, hshards):
+        ctx.merge_counters({"huge_" + k: v for k, v in stats.items()})
+        total_bad += nbad
+        for specs, name, kw, tags, res in bad:
+            key = "huge|%s|%s|%s|%s" % (name, sorted(kw.items()), "+".join(tags), specs)
+            ctx.violation(key, "allocator %s on %s: %s (result %s)" % (name, specs, tags, res), dict(allocator=name, specs=specs, kw=kw))
     for stats, bad, nbad in pmap(_shard, shards):
         ctx.merge_counters(stats)
         total_bad += nbad
@@ -243,7 +270,8 @@ def run(ctx):
              "(+ equivalence / duplicate-constant / iteration-limit / memory-limit variants)" % (N, len(items)),
         samples=[dict(specs=sample, greedy=run_allocator("greedy", sample), hill=run_allocator("hill", sample))],
         exhaustive=True,
-        bound="n<=%d over %d items complete; n=4 over %d items complete (%s)" % (N, len(items), len(items4), "Greedy (LinearAlloc ignores liveness)" if ctx.tier == "quick" else "all three, base variants"),
+        bound="n<=%d over %d items complete; n=4 over %d items complete (%s); n<=3 over %d items with sizes around 2^32 complete (%d sets)" % (
+            N, len(items), len(items4), "Greedy (LinearAlloc ignores liveness)" if ctx.tier == "quick" else "all three, base variants", len(items_h), c.get("huge_sets", 0)),
         states=c.get("sets", 0),
     )
     return ctx.finish("exploration", cov, [
